@@ -15,13 +15,13 @@ TRUSTED_BASE = [
 ASSUMPTIONS = [
     "offsets, timestamps in [0, 2^62); key/value lengths < 2^30; a physical log is v0/v1 batches followed by v2 batches, batches cover disjoint increasing offset ranges and contain their records",
     "a fetch at offset o is answered from the batch whose last offset is >= o; the response is a byte prefix that keeps the first batch whole (Kafka's rule); layouts may be re-packed between fetches but hold the same records",
-    "positive theorems carry the exception classes named in coq/Properties/C02.v (see known defects): no response in which a short read directly follows a record-less v2 batch header before any record of that response was read, no two consecutive record-less batches",
     "single user goroutine calling FetchMessage / SetOffset (the property's 'call started after SetOffset returned')",
 ]
 
-F1_KEY = "F1-empty-v2-batch-resets-offset"
-PANIC_KEY = "C02-consecutive-empty-batches-panic"
-REGRESS_KEY = "C02-offset-regress-in-compacted-tail"
+# Three defects found by this check were fixed in /repo (retained record-less v2 batch reset
+# Conn.offset to 1; consecutive record-less batches made markRead panic; Conn.offset fell back /
+# the same fetch repeated for a compacted batch tail).  Their witnesses stay in harness/cmd/c02
+# f1.go as regression cases and are judged like every other case.
 
 
 def setup():
@@ -63,28 +63,11 @@ def classify_l1(c, model, prop):
     if "unordered-formats" in feats or "cut<first" in feats:
         return out       # outside the broker specification: compared with the model only
     if go == "panic":
-        if "emptybatch" in feats:
-            out.append(dict(layer="property", key=PANIC_KEY,
-                            what="messageSetReader panics (markRead: negative count) on two consecutive record-less v2 batches followed by more data", input=c))
-        else:
-            out.append(dict(layer="property", what="Conn.ReadBatch / Batch.ReadMessage panicked", input=c))
+        out.append(dict(layer="property", what="Conn.ReadBatch / Batch.ReadMessage panicked", input=c))
     elif prop == "VIOLATED":
-        off = _field(c["args"], "off")
-        final = go.split(";")[-1]
-        try:
-            back = int(final, 16) < int(off, 16)
-        except ValueError:
-            back = False
-        if back and "emptybatch" in feats:
-            out.append(dict(layer="property", key=F1_KEY,
-                            what="a fetch response whose tail is a record-less v2 batch resets Conn.offset to 1 (Batch.lastOffset zero value): next fetch restarts at offset 1",
-                            input=c))
-        else:
-            out.append(dict(layer="property", what="one fetch: delivered messages are not exactly the stored records in [fetch offset, Conn.offset after Close)", input=c))
+        out.append(dict(layer="property", what="one fetch: delivered messages are not exactly the stored records in [fetch offset, Conn.offset after Close)", input=c))
     elif prop == "REGRESS":
-        out.append(dict(layer="property", key=REGRESS_KEY,
-                        what="Conn.offset after Batch.Close is below the offset the fetch was issued at (fetch offset inside the compacted tail of the first batch, response cut inside a later batch): no record is lost or duplicated but the same fetch repeats",
-                        input=c))
+        out.append(dict(layer="property", what="Conn.offset after Batch.Close is below the offset the fetch was issued at", input=c))
     return out
 
 
@@ -111,15 +94,13 @@ def classify_e2e(c, model):
         out.append(dict(layer="correspondence", what="end to end: model driver failed on the journal: " + str(model)[:200], input=None))
         return out
     delivered, prop, problems = parts
-    f1 = c["op"] == "e2ef1" or "f1-empty-tail" in c["feats"]
     if prop != "prop-ok":
-        out.append(dict(layer="property", key=F1_KEY if f1 else None,
-                        what="end to end: FetchMessage returned a sequence that is not a prefix of the stored records from the start position"
-                             + (" (duplicates after a record-less tail batch)" if f1 else ""), input=c))
+        out.append(dict(layer="property",
+                        what="end to end: FetchMessage returned a sequence that is not a prefix of the stored records from the start position", input=c))
     if delivered != e2e_expected(c) or problems != "ok":
         if prop == "prop-ok":
             out.append(dict(layer="correspondence", what="end to end: model replay of the journal differs from the real Reader (" + problems[:120] + ")", input=None))
-        elif not f1:
+        else:
             out.append(dict(layer="property", what="end to end: real Reader differs from the model and breaks the delivery predicate", input=c))
     return out
 
